@@ -115,6 +115,70 @@ func ZZ_C09_Election() {
 	e.zzCheckInvC("C09.start.settled", true, err == nil)
 }
 
+// One registration from the "election reset" state: several replicas are registered but
+// no leader is standing (StartSignalled=false, MaxRevReplica=""). That state is what a
+// failed Start of the signalled replica leaves (rmReplicaFromRegisteredReplicas resets the
+// election and, keyed by the tcp:// address, deletes nothing), and what a failed signal
+// or an unreachable leader leave with one entry fewer. Any subset of hosts may be
+// registered, with arbitrary revision counts, at most one of them mid-rebuild.
+func ZZ_C09_Reelection() {
+	rf := zzParam("RF", 3)
+	e := zzNewEnv(rf)
+	c := e.c
+	nh := rf + 1
+	if nh > len(zzHosts) {
+		nh = len(zzHosts)
+	}
+	rev := make([]int64, nh)
+	rebuildingHost := zzConcretize(zzChoice("rebuilding.host", nh+1)) // nh = none
+	for i := 0; i < nh; i++ {
+		rev[i] = zzNondetInt64("rev." + zzHosts[i])
+		zzAssume(rev[i] >= 0)
+	}
+	stateOf := func(i int) string {
+		if i == rebuildingHost {
+			return "rebuilding"
+		}
+		return "closed"
+	}
+	for i := 0; i < nh; i++ {
+		if zzNondetBool("pre.registered." + zzHosts[i]) {
+			c.RegisteredReplicas[zzHosts[i]] = types.RegReplica{Address: zzHosts[i], UUID: "uuid-" + zzHosts[i], RevCount: rev[i], RepType: "Backend", RepState: stateOf(i)}
+		}
+	}
+	hostIdx := func(h string) int {
+		for i := 0; i < nh; i++ {
+			if zzHosts[i] == h {
+				return i
+			}
+		}
+		return -1
+	}
+	e.f.onSignal = func(target, action string) {
+		if action != "start" {
+			return
+		}
+		zzReach("C09.reelection.elected")
+		ti := hostIdx(target)
+		zzAssert(ti >= 0, "C09.reelection.signal-to-unknown-target")
+		if ti < 0 {
+			return
+		}
+		zzAssert(len(c.RegisteredReplicas) >= rf/2+1, "C09.reelection.start-signalled-before-majority-registered")
+		zzAssert(ti != rebuildingHost, "C09.reelection.elected-replica-is-rebuilding")
+		for a := range c.RegisteredReplicas {
+			ai := hostIdx(a)
+			if ai >= 0 && ai != rebuildingHost {
+				zzAssert(rev[ai] <= rev[ti], "C09.reelection.elected-replica-not-highest-revision")
+			}
+		}
+	}
+	i := zzConcretize(zzChoice("reg.host", nh))
+	c.RegisterReplica(types.RegReplica{Address: zzHosts[i], UUID: "uuid-" + zzHosts[i], RevCount: rev[i], RepType: "Backend", RepState: stateOf(i)})
+	zzAssert(zzLockDepth(&c.RWMutex) == 0, "C09.reelection.register-left-lock-held")
+	zzReach("C09.reelection.done")
+}
+
 // Start with replicas whose revision counter is found lower: they are not used for reads.
 func ZZ_C09_StartRevisionConflict() {
 	rf := zzParam("RF", 3)
